@@ -398,7 +398,9 @@ def age_scenario(s):
     for i, st in enumerate(s["steps"][:-1]):
         if st.get("op") == "backup" and not any(k in st for k in ("crash_at", "crash_from_end", "crash_torn", "fail_p", "fail_block", "mutate_during", "actor")):
             s["steps"].insert(i + 1, {"op": "legacy_tails"})
-            s["tags"] = list(s.get("tags", [])) + ["legacy-tails"]
+            # ... and it is old: its files were last written long ago
+            s["steps"].insert(i + 2, {"op": "age_files", "days": 30 + int(hashlib.sha1(s["id"].encode()).hexdigest()[:3], 16)})
+            s["tags"] = list(s.get("tags", [])) + ["legacy-tails", "aged-files"]
             break
     return s
 
